@@ -347,8 +347,10 @@ def parseAndWriteOutput(file: str, output_dir: str, config: Config,
                 with open(output_file, "w") as output:
                     output.writelines(json_string)
 
-                    if delete_after_parsing:
-                        os.remove(file)
+                # Delete the original only once the output file has been
+                # written, flushed and closed without an error.
+                if delete_after_parsing:
+                    os.remove(file)
             else:
                 print(f"No PEL parsed for {file}")
         except Exception as e:
